@@ -9,7 +9,7 @@ ID = "C18"
 LEVEL = "exploration"
 EXAMPLES = {"quick": 1000, "thorough": 20000}
 RULE = ("Generated: LP portfolios (contracts with spread/takes, transports with efficiency, storages, multi-commodity "
-        "contracts, order books, structured assets with internal nodes, scaled assets; adversarial node names in 25%; market pairs in 85%; 1-3 nodes; grids 2-12 steps x freq x unit x zone; wacc), "
+        "contracts, order books, structured assets with internal nodes, scaled assets; adversarial node names in 25%; market pairs in 85%; in 1 of 4 split and 1 of 10 plain cases every asset is windowed away from a range of steps (no active asset there); a penalty-priced slack source (cost coefficient 3e6 or 1e8) in 1 of 8; 1-3 nodes; grids 2-12 steps x freq x unit x zone; wacc), "
         "monolithic or split, a (node, step) pair chosen among the nodal restrictions and an injection d in "
         "+-{0.05, 0.5, 2} (volumes per step are O(1) by construction). Oracle: the right-hand side of the nodal row "
         "located through map_nodal_restr is set to -d and the problem re-optimised by scipy-HiGHS: "
@@ -27,9 +27,20 @@ def _strategy(draw):
     spec = draw(gen.portfolios_all(classes=CLASSES, max_assets=4, with_markets=0.85))
     if draw(st.integers(0, 3)) == 0:
         gen.rename_nodes(draw, spec)
+    T = spec["grid"]["T"]
+    spec["split"] = draw(st.one_of(st.none(), st.none(), st.none(), st.sampled_from(["6h", "12h", "d"])))
+    if T >= 4 and draw(st.integers(0, 3 if spec["split"] else 9)) == 0:
+        spec["gap"] = gen.make_gap(draw, spec)
+    if draw(st.integers(0, 7)) == 0:
+        # a penalty-priced slack source (cost coefficients far above the ordinary prices)
+        n0 = sorted(build.all_nodes(spec))[0]
+        spec["assets"].append({"type": "simple", "name": "slack", "nodes": [n0], "price": None, "min_cap": 0.0,
+                               "max_cap": 4.0, "extra_costs": draw(st.sampled_from([3e6, 1e8])), "wacc": 0.0})
+        if spec.get("gap"):
+            spec["assets"][-1]["start"] = spec["gap"][1]      # keeps the gap empty
+        spec["penalty"] = True
     spec["pick"] = draw(st.integers(0, 10 ** 6))
     spec["d"] = draw(st.sampled_from([0.05, 0.5, 2.0])) * draw(st.sampled_from([1, -1]))
-    spec["split"] = draw(st.one_of(st.none(), st.none(), st.none(), st.sampled_from(["6h", "12h", "d"])))
     return spec
 
 
@@ -40,7 +51,8 @@ def strategy(tier):
 def check(spec):
     out = Outcome()
     split = spec.get("split")
-    out.label("d>0" if spec["d"] > 0 else "d<0", "build:split" if split else "build:monolithic")
+    out.label("d>0" if spec["d"] > 0 else "d<0", "build:split" if split else "build:monolithic",
+              "gap" if spec.get("gap") else None, "penalty_asset" if spec.get("penalty") else None)
     r = obs.Run(spec, split=split)
     if is_err(r.op):
         return out.drop("setup_error:" + r.op.kind)
